@@ -42,6 +42,7 @@ type End struct {
 	mu     sync.Mutex
 	q      [][]byte
 	closed bool
+	werr   error // when set, WriteMsg fails with it while reads go on
 	rdl    time.Time
 	wake   chan struct{}
 }
@@ -142,6 +143,11 @@ func (e *End) WriteMsg(b []byte) error {
 		e.mu.Unlock()
 		return ErrClosed
 	}
+	if e.werr != nil {
+		err := e.werr
+		e.mu.Unlock()
+		return err
+	}
 	e.mu.Unlock()
 	cp := append([]byte(nil), b...)
 	p := e.p
@@ -165,6 +171,10 @@ func (e *End) WriteMsg(b []byte) error {
 	}
 	return nil
 }
+
+// FailWrites makes every later WriteMsg of this end return err (as a UDP socket
+// does after an ICMP destination-unreachable) while reads keep being served.
+func (e *End) FailWrites(err error) { e.mu.Lock(); e.werr = err; e.mu.Unlock() }
 
 // Read implements net.Conn.
 func (e *End) Read(b []byte) (int, error) { return e.ReadMsg(b) }
